@@ -22,6 +22,9 @@ TraceLog == ndJsonDeserialize("trace.ndjson")
 Ev == TraceLog[l]
 Is(e) == l <= Len(TraceLog) /\ Ev.ev = e /\ l' = l + 1
 
+\* commands that read the kill ring or edit the line without any business in the ring
+RingReaders == {"yank", "vi-put-before", "vi-put-after", "self-insert", "transpose-chars", "up-case-word", "down-case-word", "capitalize-word",
+                "vi-change-case", "vi-change-char", "undo", "vi-undo", "redo", "vi-redo", "quoted-insert", "tab-insert"}
 None == [line |-> <<>>, set |-> FALSE]
 TInit == l = 1 /\ pre = <<>> /\ last = None
 
@@ -45,6 +48,10 @@ TEnd ==
      \*  inserting at point; the property claims vi-put-before only after delete-character)
      /\ ("yank" \in Checks /\ Ev.cmd \in Yank /\ ~p.minibuf /\ ~Ev.minibuf
             /\ ~(Ev.cmd = "vi-put-before" /\ p.kill # <<>> /\ p.kill[Len(p.kill)] = NL)) => YankContract(p, Ev, MaxRepeat)
+     \* RingStable: what a kill took stays in the ring until the next command that writes to it - a yank, typing, case and
+     \* transposition commands, movements and undo leave the ring head alone (so that the NEXT yank, however many of
+     \* these come in between, still inserts the most recent kill)
+     /\ ("yank" \in Checks /\ Ev.cmd \in RingReaders \cup Movement /\ ~p.minibuf /\ ~Ev.minibuf) => Ev.kill = p.kill
   /\ pre' = SubSeq(pre, 1, Len(pre) - 1)
   /\ last' = IF Len(pre) = 1 THEN [line |-> Ev.line, set |-> TRUE] ELSE last
 TReturn ==
